@@ -6,6 +6,7 @@ package main
 
 import (
 	"fmt"
+	"go/build/constraint"
 	"os"
 	"path/filepath"
 	"regexp"
@@ -100,7 +101,13 @@ func LoadSpecs(files []string) (*Specs, error) {
 	return sp, nil
 }
 
-func findContractFiles(repo, prelude string) []string {
+func findContractFiles(repo, prelude string, tags ...string) []string {
+	tagSet := map[string]bool{}
+	for _, t := range tags {
+		for _, u := range strings.Split(t, ",") {
+			tagSet[strings.TrimSpace(u)] = true
+		}
+	}
 	var out []string
 	filepath.Walk(repo, func(path string, info os.FileInfo, err error) error {
 		if err != nil {
@@ -110,6 +117,15 @@ func findContractFiles(repo, prelude string) []string {
 			return filepath.SkipDir
 		}
 		if !info.IsDir() && strings.HasPrefix(info.Name(), "zz_contracts") && strings.HasSuffix(info.Name(), "_verif.go") {
+			// contract files follow the build constraints of the code they annotate
+			if data, err := os.ReadFile(path); err == nil {
+				first := strings.SplitN(string(data), "\n", 2)[0]
+				if constraint.IsGoBuild(first) {
+					if expr, err := constraint.Parse(first); err == nil && !expr.Eval(func(tag string) bool { return tagSet[tag] }) {
+						return nil
+					}
+				}
+			}
 			out = append(out, path)
 		}
 		return nil
